@@ -372,19 +372,25 @@ def s7(ctx, rep):
     g = c.methods["_run_job_and_collect_results"]
     cfg = cfg_of(g)
     # the filter loop: append on  resource > paused  (strict), offset on ==
+    # the variables by role: the paused level (read from the attribute), the list that is returned
+    pv = [n_ for n_ in {x.id for x in ast.walk(g.node) if isinstance(x, ast.Name)}
+          if any(not isinstance(d, tuple) and attr in U(d) for d in local_defs(g, n_))]
+    rets = [r.value.elts[1].id for r in returns_of(g) if isinstance(r.value, ast.Tuple) and len(r.value.elts) == 2 and isinstance(r.value.elts[1], ast.Name)]
+    if len(pv) != 1 or not rets:
+        raise AnchorError("_BlackboxSimulatorBackend._run_job_and_collect_results: paused-level variable / returned list not identified")
+    pv, rv = pv[0], rets[0]
     app = [(n.id, x) for n in cfg.nodes for x in cfg.node_walk(n.id)
-           if isinstance(x, ast.Call) and fn_name(x) == "append" and U(x.func.value) == "results"]
+           if isinstance(x, ast.Call) and fn_name(x) == "append" and U(x.func.value) == rv]
     if not app:
-        raise AnchorError("_BlackboxSimulatorBackend._run_job_and_collect_results: results.append not found")
+        raise AnchorError("_BlackboxSimulatorBackend._run_job_and_collect_results: append to the returned list not found")
     for nid, x in app:
-        ok = ctx.has_fact(g, nid, lambda a: a[0] == "lt" and a[1] == "resource_paused" and a[2] == "resource")
+        ok = ctx.has_fact(g, nid, lambda a: a[0] == "lt" and a[1] == pv and "resource" in a[2])
         rep.put(ok, "S7", "guarded_by", "_BlackboxSimulatorBackend._run_job_and_collect_results: keep level | level > paused level",
                 g, x, "a resumed run reports strictly after the level it was paused at",
                 "a resumed run may report the paused level (or earlier ones) again")
-    off = [n for n in cfg.nodes if n.kind == "stmt" and isinstance(n.ast, ast.Assign) and U(n.ast.targets[0]) == "elapsed_time_offset"
-           and not isinstance(n.ast.value, ast.Constant)]
-    ok = bool(off) and all(ctx.has_fact(g, n.id, lambda a: a[0] == "eq" and a[3] is True and {a[1], a[2]} == {"resource", "resource_paused"})
-                           for n in off)
+    off = [n for n in cfg.nodes if n.kind == "stmt" and isinstance(n.ast, ast.Assign) and isinstance(n.ast.targets[0], ast.Name)
+           and "elapsed_time_attr" in U(n.ast.value) and isinstance(n.ast.value, ast.Subscript)]
+    ok = bool(off) and all(ctx.has_fact(g, n.id, lambda a: a[0] == "eq" and a[3] is True and pv in (a[1], a[2])) for n in off)
     rep.put(ok, "S7", "guarded_by", "_BlackboxSimulatorBackend._run_job_and_collect_results: time offset taken at the paused level", g,
             off[0].ast if off else None, "")
 
